@@ -144,6 +144,7 @@ def bounds(tier):
 
 
 REPEAT = 40
+CLI_INPUT_FORMS = ('args-sorted', 'args-shuffled', 'listfile-sorted', 'listfile-mates-in-different-order', 'args-percell-rerun')
 
 
 def shards(tier):
@@ -158,6 +159,9 @@ def shards(tier):
     for n in (LONG_STRATEGIES_QUICK if tier == 'quick' else LONG_STRATEGIES_THOROUGH):
         if n in _STATE['names']:
             out.append(('long', n, None))
+    # the command line itself (demux.py run as a script in a fresh interpreter): how the input files are given
+    for how in CLI_INPUT_FORMS:
+        out.append(('cli', 'CS2C8U6', how))
     return out
 
 
@@ -283,8 +287,84 @@ def _outcome(cfg, fates):
     return f'{cfg["end"]}:{cfg["out"]}:{f}'
 
 
+def run_cli(short, how):
+    """demux.py as a script on a lane split into two chunks per mate; -> (violations, fates)"""
+    import gzip
+    import subprocess
+    import sys
+    setup()
+    word = ['W', 'U', 'W2', 'W', 'W3', 'S', 'W', 'W2', 'U', 'W', 'W3', 'T']
+    word = [w for w in word if w in _STATE['alph'][short].letters or w in _STATE['alph'][short].bc] or ['W'] * 6
+    try:
+        inputs = _inputs(short, word)
+    except G.GeneratorError as e:
+        raise bind.HarnessError(f'C01 generator: {e}')
+    d = tempfile.mkdtemp(prefix='c01cli_', dir='/dev/shm')
+    try:
+        half = len(inputs) // 2
+        files = {}
+        for ci, ch in enumerate((inputs[:half], inputs[half:])):
+            for mi in range(2):
+                p = os.path.join(d, f'LIB_L001_R{mi + 1}_00{ci + 1}.fastq.gz')
+                with gzip.open(p, 'wt', compresslevel=1) as f:
+                    f.write(G.fastq_text([pr[mi] for pr in ch]))
+                files[(mi, ci)] = p
+        order_sorted = [files[(0, 0)], files[(0, 1)], files[(1, 0)], files[(1, 1)]]
+        if how in ('args-sorted', 'args-percell-rerun'):
+            argv = order_sorted
+        elif how == 'args-shuffled':
+            argv = [files[(1, 1)], files[(0, 0)], files[(1, 0)], files[(0, 1)]]
+        else:
+            lst = os.path.join(d, 'files.list')
+            order = order_sorted if how == 'listfile-sorted' else [files[(0, 0)], files[(0, 1)], files[(1, 1)], files[(1, 0)]]
+            with open(lst, 'w') as f:
+                f.write('\n'.join(order) + '\n')
+            argv = [lst]
+        out = os.path.join(d, 'out')
+        script = os.path.join(bind.REPO, 'singlecellmultiomics', 'modularDemultiplexer', 'demux.py')
+        env = dict(os.environ, PYTHONPATH=bind.REPO)
+        percell = (how == 'args-percell-rerun')
+        base = [sys.executable, script] + argv + ['--y', '-use', short, '-o', out] + (['--scsepf'] if percell else [])
+        runs = [base + ['-n', '3'], base] if percell else [base]      # a try-out on a few reads, then the full run, same -o
+        for cmd in runs:
+            r = subprocess.run(cmd, capture_output=True, text=True, env=env, cwd=d, timeout=600)
+            if r.returncode != 0:
+                return [(f'cli:{how}:demux.py-exit-{r.returncode}', r.stderr[-600:])], []
+        lib = os.path.join(out, 'LIB')
+        if not os.path.isdir(lib):
+            return [(f'cli:{how}:no-output-directory', os.listdir(out) if os.path.isdir(out) else None)], []
+        if percell:
+            # per-cell files are named <prefix>.<cell>.<MX>.R1.fastq.gz; collect() expects the prefix the handle was given
+            res = O.collect(os.path.join(lib, 'demultiplexed'), os.path.join(lib, 'rejects'), True, True, True)
+        else:
+            res = O.collect(os.path.join(lib, 'demultiplexed'), os.path.join(lib, 'rejects'), True, False, True)
+        logp = os.path.join(lib, 'demultiplexing.log')
+        log_text = open(logp).read() if os.path.exists(logp) else ''
+        processed, yields = O.parse_log(log_text)
+        raw, fates = O.check(inputs, True, percell, True, None, short, processed if processed is not None else len(inputs),
+                             yields or {short: sum(1 for _ in [])}, log_text, res)
+        viols, seen = [], set()
+        for clause, pos, detail in raw:
+            if clause.startswith('yield-counter') or clause.startswith('processedReadPairs'):
+                continue      # the log holds one block per chunk; the counters are judged at loader level
+            sig = f'cli:{how}:{clause}'
+            if sig not in seen:
+                seen.add(sig)
+                viols.append((sig, {'what': detail, 'fates': ''.join(fates)}))
+        return viols, fates
+    finally:
+        shutil.rmtree(d, ignore_errors=True)
+
+
 def run_shard(shard, tier, acc):
     setup()
+    if shard[0] == 'cli':
+        case = {'cli': shard[2], 'strategy': shard[1]}
+        viols, fates = run_cli(shard[1], shard[2])
+        acc.case(case, transitions=len(fates), nontrivial=True, outcome=f"cli:{shard[2]}:{''.join(fates)[:14]}")
+        for sig, d in viols:
+            acc.violation(sig, case, d)
+        return
     kind, short, cfg = shard
     d = tempfile.mkdtemp(prefix='c01_', dir='/dev/shm')
     try:
@@ -318,6 +398,8 @@ def run_shard(shard, tier, acc):
 
 
 def replay(case):
+    if 'cli' in case:
+        return run_cli(case['strategy'], case['cli'])[0]
     if 'long' in case and case['long'] != LONG_PAIRS:
         raise bind.HarnessError('long word length changed since the replay was recorded')
     viols, _, _ = run_case(case)
